@@ -136,8 +136,8 @@ PENDING = {}
 ADDENDA = {
  "C01": "Also: filters registered in stages between calls (registration is state of the model), serial runs through every generated entry point (Fn / FnWithContext / FnOneWayWithContext with 0-2 option maps), a run with 4-64 KiB values.",
  "C02": "Read targets are pre-filled with junk, so a read that leaves part of its target untouched shows.",
- "C04": "Also: members removed from nested structs, and one unknown list of 10050 structs (the reference is shown the encoding without it).",
- "C05": "Also: a probe of every nesting pattern at 5,000,000 levels in the quick tier, a work bound (a decode of <= 64 KiB taking > 2 s twice counts as a hang), TUP maps and attribute values announcing negative / huge lengths, and the client receive path: a real client process behind a man in the middle that rewrites a real server's responses.",
+ "C04": "Also: members removed from nested structs, and one unknown list of 10050 structs (the reference is shown the encoding without it). Every struct is also decoded with all nested structs at their defaults (empty struct bodies on the wire).",
+ "C05": "Also: a probe of every nesting pattern at 5,000,000 levels in the quick tier, a work bound (a decode of <= 64 KiB taking > 2 s twice counts as a hang), TUP maps and attribute values announcing negative / huge lengths, and the client receive path: a real client process behind a man in the middle that rewrites a real server's responses. Round 4: nested MAP / LIST chains in positions that really are skipped (tag 0 of the packets, a tag gap of Vt.Inner, through Vt.Opts.inn), and about 8,000 well-formed requests whose header fields go through their boundary values (message-type bits x status keys x trace/dyeing key shapes, timeout, packet type, version, servant, function, context) on the tcp and udp servers.",
  "C06": "Also the TUP attribute map (tup.UniAttribute.Decode) as pseudo struct tup.Attr.",
  "C07": "Also: receivers with a read timeout and silent peers, up to three successive connections of one receiver (streams cut inside packets, reconnects), framing asked of the real AdapterProxy (a ServantProxy as client) and of tars.Protocol.",
  "C08": "Also: a second call straight after a duplicated answer, ids as seen on the wire incl. one-way requests, bursts started at the wrap point, client filter registrations (own processes).",
@@ -145,11 +145,11 @@ ADDENDA = {
  "C10": "Also: server filter registrations (legacy, pre/post, middlewares, all) and context-free servants as configurations, each in its own child process.",
  "C11": "Also: server closes while calls are under way, server restarts with failed dials, receivers held longer than the gap between closes, call timeouts below the sender's 1 s tick, and the close-notification path through the real ServantProxy.",
  "C12": "Also: one-way requests, clients that vanish with a reset, 2-3 calls of Shutdown, up to 6 connections in mixed states, requests sent during the shutdown; the client must see the notification before the end of its stream.",
- "C13": "Also: weight types and mixed sets, static weights 1..3, and manager histories (registry refresh / block / recover) through a real ServantProxy.",
+ "C13": "A stress stage selects at full speed from 32 goroutines with nothing recorded in between (panic / foreign endpoint are verdicts; a strategy named by a data race report is stressed on until the race does damage or the budget is used up). Also: weight types and mixed sets, static weights 1..3, and manager histories (registry refresh / block / recover) through a real ServantProxy.",
  "C14": "Also: registry-fed proxies with endpoints blocked and recovered and registry refreshes (permuted replies, endpoints added / dropped) through the manager's own refresher; Manager.tla.",
  "C15": "Also: refused connections and endpoints going down and coming back, registry refreshes interleaved with blocking, probing and recovery.",
  "C16": "Also: every acyclic include graph up to 4 files (IdlIncludes), every program generated under its own assignment of the tool's switches (IdlSwitches, 3-way covering in the quick tier).",
- "C17": "Also: sessions in which the caller mutates what a getter returned, both readings of a bare key line, and the application's reading of the configuration (AppConf.tla: 53 settings with dependent defaults, one child process per document).",
+ "C17": "Also: sessions in which the caller mutates what a getter returned, both readings of a bare key line, and the application's reading of the configuration (AppConf.tla: 53 settings with dependent defaults, one child process per document). Lines with an empty key ('= v', '==') must appear in the line listing (EmptyKeyLinesAreLinesOnly).",
  "C18": "Also: direct addresses through tars.NewServantProxy / the endpoint manager (mixed-case hosts, lists) and adapter endpoints as stored by parseServerConfig (-b absent / equal / different).",
  "C20": "Also: queue capacity 2 (test export), the Infof and Trace entry points, the framework's file writer across a re-open, and real child processes that end by a panic under tars.CheckPanic or inside tars.Run.",
 }
